@@ -231,6 +231,10 @@ def alphabet(tier):
             ev.append(("imap", u, a, False))
             if u != "ghost":
                 ev.append(("imap", u, a, True))
+    # another spelling of an account's name (sent as a quoted string) is not that account: the right password does not open it,
+    # and whatever the server does with the name it may not become a second, fresh allowance of guesses at bob's password
+    ev.append(("imap", "bob ", ADDRS[0], True))
+    ev.append(("imap", "bob ", ADDRS[1], False))
     ev.append(("pop3", "alice", ADDRS[0], False))
     ev.append(("pop3", "alice", ADDRS[1], True))
     ev.append(("pop3", "bob", ADDRS[0], False))
@@ -286,6 +290,7 @@ def model_step(states, ev, t):
     if kind == "wait":
         return {"waited": set(states)}
     _, u, a, good = ev
+    good = good and u in GOOD  # (the password is right only for the account it belongs to, spelled as in the password file)
     for (ut, at) in states:
         ud, ad = dict(ut), dict(at)
         variants = [(ud, ad)]
@@ -332,12 +337,12 @@ def do_event(fw, ev):
         lp.advance(float(ev[1]))
         return "waited", lp.time()
     proto, u, a, good = ev
-    pw = GOOD.get(u, "ghostpw") if good else "wrong-password"
+    pw = GOOD.get(u.strip(), "ghostpw") if good else "wrong-password"
     t = lp.time()
     fw.port = getattr(fw, "port", 6000) + 1
     if proto == "imap":
         s = fw.imap_client(addr=a, port=fw.port)
-        out = s.line(b"x LOGIN %s %s" % (u.encode(), pw.encode()), wait=15)
+        out = s.line(b"x LOGIN %s %s" % (b'"' + u.encode() + b'"' if u != u.strip() else u.encode(), pw.encode()), wait=15)
         if b"x OK" in out:
             oc = "ok"
         elif b"Too many" in out:
